@@ -38,7 +38,7 @@ def main():
     sh(f"git -C /repo worktree remove --force {wt}")
     shutil.rmtree(wt, ignore_errors=True)
     os.makedirs("/tmp/wtv", exist_ok=True)
-    r = sh(f"git -C /repo worktree add -q --detach {wt} HEAD")
+    r = sh(f"git -C /repo worktree add -q --detach {wt} {meta.get('base_commit', 'HEAD')}")  # base_commit: the tree the change was written against
     assert r.returncode == 0, r.stderr
     out = {"seed": sid, "property": meta["property"], "at": time.strftime("%Y-%m-%dT%H:%M:%S"), "repo_head": sh("git -C /repo rev-parse --short HEAD").stdout.strip()}
     try:
